@@ -601,6 +601,8 @@ class ProgGen:
                 op = r.choice(ARITH)
                 rhs = self.gen_divisor(d - 1) if op in ('/', '%') else (
                     self.gen_int(d - 1) if el == 'int' else self.coerced('byte', d - 1))
+                if el == 'int' and op not in ('/', '%') and self.feat('bytes') and self.chance(0.35):
+                    rhs = self.gen_byte(d - 1)        # byte-typed right-hand side on a wide element
                 if el == 'byte' and not self.typer().byte_coercible(rhs, self.typer_scopes()):
                     rhs = ('int', r.randrange(1, 9))
                 st = ('aug', op, tgt, rhs)
